@@ -245,6 +245,22 @@ class Doc:
                     return e
                 recipes += [('kw:' + an, by_kw), ('dot:' + an, by_dot), ('kw-removed:' + an, kw_then_removed),
                             ('kw-overwritten:' + an, kw_then_overwritten)]
+            # an element that WAS nested: built inside a parent, the parent serialised, then detached (remove /
+            # replace_child / dot assignment of None) -- it is a root again and must copy like one
+            def detached(how):
+                p = F.mk(name)
+                ks = p.get_children(ordered=False)
+                c = next((k for k in ks if k.get_children(ordered=False)), ks[0])
+                p.to_string()
+                if how == 'remove':
+                    p.remove(c)
+                elif how == 'replace':
+                    p.replace_child(c, F.mk(c.name))
+                else:
+                    setattr(p, 'xml_' + c.name.replace('-', '_'), None)
+                return c
+            if kids:
+                recipes += [('detached-' + how, (lambda how=how: detached(how))) for how in ('remove', 'replace', 'dotnone')]
         for chk in (True, False):
             for desc, build in recipes:
                 def b():
